@@ -223,6 +223,13 @@ def configs(tier, rng):
                        entry_point="tensorly.random.random_tt"))
         out.append(Cfg(f"random_tr[{sh}]", "E_random_tr", opts_lit(sh, 2), lambda rs, sh=sh: tlr.random_tr(sh, [2] * (len(sh) + 1), random_state=rs), kinds=BAD,
                        entry_point="tensorly.random.random_tr"))
+    # orthogonal / non-negative random_tucker has its own draw site; backend-level tl.randn / tl.gamma take a `seed`
+    out.append(Cfg("random_tucker_orth[(4, 3, 5)]", "E_random_tucker", opts_lit((4, 3, 5), 2), lambda rs: tlr.random_tucker((4, 3, 5), [2, 2, 2], orthogonal=True, random_state=rs),
+                   entry_point="tensorly.random.random_tucker"))
+    out.append(Cfg("random_tucker_full_nn[(4, 3, 5)]", "E_random_tucker", opts_lit((4, 3, 5), 2), lambda rs: tlr.random_tucker((4, 3, 5), [2, 2, 2], full=True, non_negative=True, random_state=rs),
+                   entry_point="tensorly.random.random_tucker"))
+    out.append(Cfg("tl.randn", "E_random_tensor", opts_lit((3, 4)), lambda rs: tl.randn((3, 4), seed=rs), kinds=BAD, entry_point="tensorly.randn"))
+    out.append(Cfg("tl.gamma", "E_random_tensor", opts_lit((5,)), lambda rs: tl.gamma(2.0, 1.5, size=(5,), seed=rs), kinds=BAD, entry_point="tensorly.gamma"))
     for sh in [(2, 3, 2, 3)] + ([(2, 2, 2, 3, 2, 2), (3, 4)] if thorough else []):
         out.append(Cfg(f"random_tt_matrix[{sh}]", "E_random_tt_matrix", opts_lit(sh, 2), lambda rs, sh=sh: tlr.random_tt_matrix(sh, [1] + [2] * (len(sh) // 2 - 1) + [1], random_state=rs), kinds=BAD,
                        entry_point="tensorly.random.random_tt_matrix"))
@@ -386,6 +393,12 @@ def configs(tier, rng):
         out.append(Cfg(f"tensor_train_cross[{sh}]", "E_tt_cross", opts_lit(sh, 2, nrep=3, iters=3, aux=2),
                        lambda rs, X=X, n=n: tensor_train_cross(X, [1] + [2] * (n - 1) + [1], tol=1e-4, n_iter_max=3, random_state=rs),
                        entry_point="tensorly.contrib.decomposition.tensor_train_cross"))
+    # TT-cross redraws an index tuple when it collides with one already chosen (a separate draw site inside a while
+    # loop): ranks equal to the number of possible tuples make collisions near certain (7/9 per seed for the last mode)
+    Xcol = low_rank((3, 4, 3), 2, 4)
+    out.append(Cfg("tensor_train_cross[(3, 4, 3),colliding]", "E_tt_cross", opts_lit((3, 4, 3), 3, nrep=3, iters=2, aux=3),
+                   lambda rs: tensor_train_cross(Xcol, [1, 3, 3, 1], tol=1e-4, n_iter_max=2, random_state=rs),
+                   entry_point="tensorly.contrib.decomposition.tensor_train_cross", key="tensor_train_cross[colliding]"))
 
     # ---- regression (estimators: the seed is a constructor argument)
     Xr = data((8, 3, 4), 31, nonneg=False)
@@ -466,6 +479,518 @@ def configs(tier, rng):
     out.append(Cfg("power_iteration", "E_power_iteration", opts_lit((4, 3, 5), 1, iters=2, aux=2), lambda rs: _cp_power.power_iteration(Xc, n_repeat=2, n_iteration=2),
                    kinds=("none",), seedable=False, entry_point="tensorly.decomposition._cp_power.power_iteration"))
     return out
+
+
+# ----------------------------------------------------------------------------- static extraction of draw skeletons (corr:C16-static)
+# Python ast -> term of Model/Draws.v's skel.  Per function / class of tensorly with a random_state (seed) argument:
+# check_random_state bindings, draws on the bound name, numpy.random module-level
+# draws, calls of seed-accepting callees with the expression passed as random_state (callee bodies inlined, constant
+# keyword arguments and defaults propagated into `if` tests of the callee).  Local helper of this property.
+import ast, os
+
+SEED_PARAMS = ("random_state", "seed")
+
+
+class _NotAScalar:
+    def __repr__(self):
+        return "<tuple/list>"
+
+    def __bool__(self):
+        return True
+
+
+NOT_A_SCALAR = _NotAScalar()
+
+
+def _dotted(node):
+    parts = []
+    while isinstance(node, ast.Attribute):
+        parts.append(node.attr)
+        node = node.value
+    if isinstance(node, ast.Name):
+        parts.append(node.id)
+        return ".".join(reversed(parts))
+    return None
+
+
+# ---- skeleton terms (tuples) with gf-preserving simplification
+def seq(items):
+    items = [x for x in items if x != "Skip"]
+    if not items:
+        return "Skip"
+    out = items[-1]
+    for x in reversed(items[:-1]):
+        out = ("Seq", x, out)
+    return out
+
+
+def branch(a, b):
+    return "Skip" if a == "Skip" and b == "Skip" else ("Branch", a, b)
+
+
+def loop(b):
+    return "Skip" if b == "Skip" else ("For", b)
+
+
+def call(a, b):
+    return "Skip" if b == "Skip" else ("Call", a, b)
+
+
+def coq(t):
+    if isinstance(t, str):
+        return t
+    if t[0] == "Seq":
+        return "(Seq %s %s)" % (coq(t[1]), coq(t[2]))
+    if t[0] == "Branch":
+        return "(Branch 0%%nat %s %s)" % (coq(t[1]), coq(t[2]))
+    if t[0] == "For":
+        return "(For 0%%nat 1%%nat %s)" % coq(t[1])
+    if t[0] == "Call":
+        return "(Call %s %s)" % (t[1], coq(t[2]))
+    raise ValueError(t)
+
+
+def size(t):
+    return 1 if isinstance(t, str) else 1 + sum(size(x) for x in t[1:] if not isinstance(x, str) or x in ("Skip", "Check", "(Draw 0%nat)", "(DrawNp 0%nat)"))
+
+
+class Extractor:
+    def __init__(self, repo, samplers):
+        self.samplers = samplers
+        self.funcs = {}      # bare name -> [(relpath, FunctionDef)]
+        self.classes = {}    # bare name -> [(relpath, ClassDef)]
+        self.memo = {}
+        self.stack = []
+        self.unresolved = []   # (where, what): constructs the extraction does not understand (never an alarm)
+        self.flags = []        # (where, what): identified global sources
+        root = os.path.join(repo, "tensorly")
+        for dp, dn, fns in os.walk(root):
+            if "tests" in dp.split(os.sep) or "plugins" in dp.split(os.sep):
+                continue
+            for fn in fns:
+                if not fn.endswith(".py"):
+                    continue
+                path = os.path.join(dp, fn)
+                rel = os.path.relpath(path, repo)
+                try:
+                    tree = ast.parse(open(path).read())
+                except SyntaxError:
+                    continue
+                for node in tree.body:
+                    if isinstance(node, ast.FunctionDef):
+                        self.funcs.setdefault(node.name, []).append((rel, node))
+                    elif isinstance(node, ast.ClassDef):
+                        self.classes.setdefault(node.name, []).append((rel, node))
+                        if node.name == "Backend":       # tl.randn / tl.gamma / check_random_state live here
+                            for m in node.body:
+                                if isinstance(m, ast.FunctionDef) and m.name in ("randn", "gamma"):
+                                    self.funcs.setdefault(m.name, []).append((rel, m))
+        # seed-accepting functions: explicit parameter, or **kwargs forwarded to one (fixpoint)
+        self.seedparam = {}   # bare name -> "random_state" | "seed" | "**"
+        for name, defs in self.funcs.items():
+            for rel, f in defs:
+                p = self._explicit_seed_param(f)
+                if p:
+                    self.seedparam[name] = p
+        for _ in range(3):
+            for name, defs in self.funcs.items():
+                if name in self.seedparam:
+                    continue
+                for rel, f in defs:
+                    if f.args.kwarg is None:
+                        continue
+                    kw = f.args.kwarg.arg
+                    aliases = self._fun_aliases(f)
+                    for c in ast.walk(f):
+                        if isinstance(c, ast.Call) and any(k.arg is None and isinstance(k.value, ast.Name) and k.value.id == kw for k in c.keywords):
+                            for cal in self._callee_names(c, aliases):
+                                if cal in self.seedparam:
+                                    self.seedparam[name] = "**"
+        self.seedclass = {}
+        for name, defs in self.classes.items():
+            for rel, c in defs:
+                for m in c.body:
+                    if isinstance(m, ast.FunctionDef) and m.name == "__init__" and self._explicit_seed_param(m):
+                        self.seedclass[name] = self._explicit_seed_param(m)
+
+    @staticmethod
+    def _explicit_seed_param(f):
+        names = [a.arg for a in f.args.posonlyargs + f.args.args + f.args.kwonlyargs]
+        for p in SEED_PARAMS:
+            if p in names:
+                return p
+        return None
+
+    def _fun_aliases(self, f):
+        """local names assigned from module-level functions: svd_fun = randomized_svd"""
+        al = {}
+        for n in ast.walk(f):
+            if isinstance(n, ast.Assign) and len(n.targets) == 1 and isinstance(n.targets[0], ast.Name) and isinstance(n.value, ast.Name) \
+                    and n.value.id in self.funcs:
+                al.setdefault(n.targets[0].id, set()).add(n.value.id)
+        return al
+
+    def _callee_names(self, c, aliases):
+        d = _dotted(c.func)
+        if d is None:
+            return []
+        last = d.split(".")[-1]
+        if isinstance(c.func, ast.Name) and last in aliases:
+            return sorted(aliases[last])
+        return [last]
+
+    # ---- bodies
+    def body_of(self, name, env=None):
+        """skeleton of the function / class called [name], relative to its own random_state argument;
+        env: parameters of the callee whose value is a known constant at this call (defaults included)"""
+        env = env or {}
+        key = (name, tuple(sorted((k, repr(v)) for k, v in env.items())))
+        name_ = name
+        if key in self.memo:
+            return self.memo[key]
+        if name in self.stack:
+            return "Skip"        # recursion: cut (none in tensorly)
+        self.stack.append(name)
+        try:
+            if name in self.seedclass:
+                rel, c = self.classes[name][0]
+                parts = []
+                for m in c.body:
+                    if isinstance(m, ast.FunctionDef) and m.name != "__init__":
+                        parts.append(self._scope(m, "self", f"{rel}:{name}.{m.name}", {}))
+                out = seq(parts)
+            else:
+                rel, f = self.funcs[name][0]
+                out = self._scope(f, self.seedparam.get(name), f"{rel}:{name}", env)
+        finally:
+            self.stack.pop()
+        self.memo[key] = out
+        return out
+
+    def _scope(self, f, param, where, env):
+        sc = _Scope(self, f, param, where, env)
+        return sc.block(f.body)
+
+    def call_env(self, callee, c, caller):
+        """constants known for the parameters of [callee] at the call c made from scope [caller]"""
+        if callee not in self.funcs:
+            return {}
+        rel, fd = self.funcs[callee][0]
+        a = fd.args
+        pos = [x.arg for x in a.posonlyargs + a.args]
+        if pos and pos[0] == "self":
+            pos = pos[1:]
+        env = {}
+        dynamic = any(k.arg is None for k in c.keywords) or any(isinstance(x, ast.Starred) for x in c.args)
+        if not dynamic:
+            defaults = a.defaults
+            allpos = [x.arg for x in a.posonlyargs + a.args]
+            for nm, d in zip(allpos[len(allpos) - len(defaults):], defaults):
+                if isinstance(d, ast.Constant):
+                    env[nm] = d.value
+            for x, d in zip(a.kwonlyargs, a.kw_defaults):
+                if isinstance(d, ast.Constant):
+                    env[x.arg] = d.value
+
+        def val(e):
+            if isinstance(e, ast.Constant):
+                return True, e.value
+            if isinstance(e, (ast.Tuple, ast.List)):
+                return True, NOT_A_SCALAR          # init=(weights, factors): differs from every string / None
+            if isinstance(e, ast.Name) and e.id in caller.known:
+                return True, caller.known[e.id]
+            return False, None
+        if not any(isinstance(x, ast.Starred) for x in c.args):
+            for nm, e in zip(pos, c.args):
+                ok, v = val(e)
+                if ok:
+                    env[nm] = v
+                else:
+                    env.pop(nm, None)
+        for k in c.keywords:
+            if k.arg is None:
+                continue
+            ok, v = val(k.value)
+            if ok:
+                env[k.arg] = v
+            else:
+                env.pop(k.arg, None)
+        return env
+
+
+class _Scope:
+    def __init__(self, ex, f, param, where, env=None):
+        self.ex, self.f, self.param, self.where = ex, f, param, where
+        assigned = set()
+        for n in ast.walk(f):
+            if isinstance(n, (ast.Assign, ast.AugAssign, ast.AnnAssign, ast.For, ast.comprehension, ast.NamedExpr, ast.With)):
+                tg = n.targets if isinstance(n, ast.Assign) else [getattr(n, "target", None)]
+                for t in tg:
+                    for m in ast.walk(t) if t is not None else []:
+                        if isinstance(m, ast.Name):
+                            assigned.add(m.id)
+        self.known = {k: v for k, v in (env or {}).items() if k not in assigned}
+        self.raw = set()        # names that hold the raw random_state argument
+        self.rng = set()        # names bound by check_random_state(raw)
+        self.glob = set()       # names bound by check_random_state(<something else>)
+        self.kwname = f.args.kwarg.arg if f.args.kwarg is not None else None
+        if param in SEED_PARAMS:
+            self.raw.add(param)
+        self.aliases = {}       # local names assigned from module-level functions (svd_fun = randomized_svd), as encountered
+
+    # -- classification of an expression used as a random_state argument
+    def is_raw(self, e):
+        if isinstance(e, ast.Name) and e.id in self.raw:
+            return True
+        if self.param == "self" and isinstance(e, ast.Attribute) and isinstance(e.value, ast.Name) and e.value.id == "self" and e.attr in SEED_PARAMS:
+            return True
+        return False
+
+    def argkind(self, e):
+        if self.is_raw(e):
+            return "ARaw"
+        if isinstance(e, ast.Name) and e.id in self.rng:
+            return "ARng"
+        if isinstance(e, ast.Name) and e.id in self.glob:
+            return "ANone"
+        if isinstance(e, ast.Constant) and e.value is None:
+            return "ANone"
+        if isinstance(e, ast.Constant) and isinstance(e.value, int):
+            return "(AConst %d%%Z)" % e.value
+        self.ex.unresolved.append((self.where, "random_state argument " + ast.dump(e)[:80]))
+        return "ARaw"
+
+    # -- statements
+    def block(self, stmts):
+        return seq([self.stmt(s) for s in stmts])
+
+    def stmt(self, s):
+        if isinstance(s, (ast.FunctionDef, ast.AsyncFunctionDef)):
+            return self.block(s.body)            # local closure: inlined where it is defined
+        if isinstance(s, ast.ClassDef):
+            return "Skip"
+        if isinstance(s, ast.If):
+            t = self.truth(s.test)
+            if t is True:
+                return seq([self.expr(s.test), self.block(s.body)])
+            if t is False:
+                return seq([self.expr(s.test), self.block(s.orelse)])
+            return seq([self.expr(s.test), branch(self.block(s.body), self.block(s.orelse))])
+        if isinstance(s, (ast.For, ast.AsyncFor)):
+            return seq([self.expr(s.iter), loop(self.block(s.body)), self.block(s.orelse)])
+        if isinstance(s, ast.While):
+            return seq([loop(seq([self.expr(s.test), self.block(s.body)])), self.block(s.orelse)])
+        if isinstance(s, (ast.With, ast.AsyncWith)):
+            return seq([self.expr(i.context_expr) for i in s.items] + [self.block(s.body)])
+        if isinstance(s, ast.Try):
+            return seq([self.block(s.body)] + [branch(self.block(h.body), "Skip") for h in s.handlers] + [self.block(s.orelse), self.block(s.finalbody)])
+        if isinstance(s, ast.Assign):
+            ev = self.expr(s.value)
+            if len(s.targets) == 1 and isinstance(s.targets[0], ast.Name):
+                ev = seq([ev, self.bind(s.targets[0].id, s.value)])
+            return ev
+        if isinstance(s, ast.AnnAssign):
+            if s.value is None:
+                return "Skip"
+            ev = self.expr(s.value)
+            if isinstance(s.target, ast.Name):
+                ev = seq([ev, self.bind(s.target.id, s.value)])
+            return ev
+        # everything else: evaluate the expressions it contains, in order
+        return seq([self.expr(c) for c in ast.iter_child_nodes(s) if isinstance(c, ast.expr)] +
+                   [self.stmt(c) for c in ast.iter_child_nodes(s) if isinstance(c, ast.stmt)])
+
+    def truth(self, e):
+        """three-valued evaluation of a test under what is known: constant parameters of this call, and the fact
+        that the analysis is about random_state being an int or a generator object (never None)"""
+        if isinstance(e, ast.Constant):
+            return bool(e.value)
+        if isinstance(e, ast.Name) and e.id in self.known:
+            return bool(self.known[e.id])
+        if isinstance(e, ast.UnaryOp) and isinstance(e.op, ast.Not):
+            t = self.truth(e.operand)
+            return None if t is None else (not t)
+        if isinstance(e, ast.BoolOp):
+            ts = [self.truth(v) for v in e.values]
+            if isinstance(e.op, ast.And):
+                return False if any(t is False for t in ts) else (True if all(t is True for t in ts) else None)
+            return True if any(t is True for t in ts) else (False if all(t is False for t in ts) else None)
+        if isinstance(e, ast.Compare) and len(e.ops) == 1:
+            l, r, op = e.left, e.comparators[0], e.ops[0]
+            if self.is_raw(l) and isinstance(r, ast.Constant) and r.value is None and isinstance(op, (ast.Is, ast.Eq)):
+                return False
+            if self.is_raw(l) and isinstance(r, ast.Constant) and r.value is None and isinstance(op, (ast.IsNot, ast.NotEq)):
+                return True
+
+            def val(x):
+                if isinstance(x, ast.Constant):
+                    return True, x.value
+                if isinstance(x, ast.Name) and x.id in self.known:
+                    return True, self.known[x.id]
+                return False, None
+            (ok1, v1), (ok2, v2) = val(l), val(r)
+            if ok1 and ok2:
+                if isinstance(op, ast.Eq):
+                    return v1 == v2
+                if isinstance(op, ast.NotEq):
+                    return v1 != v2
+                if isinstance(op, ast.Is):
+                    return v1 is v2
+                if isinstance(op, ast.IsNot):
+                    return v1 is not v2
+        return None
+
+    def bind(self, name, value):
+        """effect of `name = value` on the sets of generator-valued names; returns the Check event if any"""
+        if isinstance(value, ast.Name) and value.id in self.ex.funcs:
+            self.aliases.setdefault(name, set()).add(value.id)
+        if isinstance(value, ast.Call) and (_dotted(value.func) or "").split(".")[-1] == "check_random_state" and value.args:
+            a = value.args[0]
+            if self.is_raw(a):
+                self.rng.add(name)
+                return "Check"
+            self.glob.add(name)
+            self.ex.flags.append((self.where, "check_random_state applied to something else than the random_state argument"))
+            return "Skip"
+        if (_dotted(value) or "") in ("np.random", "numpy.random", "np.random.mtrand._rand", "numpy.random.mtrand._rand", "np.random.mtrand"):
+            self.glob.add(name)
+            return "Skip"
+        if self.is_raw(value):
+            # alias of the argument (sample_khatri_rao: `rng = random_state` under isinstance): for a generator object
+            # this is what check_random_state returns
+            self.rng.add(name)
+            return "Check"
+        return "Skip"
+
+    # -- expressions: events in evaluation order
+    def expr(self, e):
+        if e is None:
+            return "Skip"
+        if isinstance(e, (ast.ListComp, ast.SetComp, ast.GeneratorExp)):
+            gens = seq([seq([self.expr(g.iter)] + [self.expr(i) for i in g.ifs]) for g in e.generators])
+            return seq([gens, loop(self.expr(e.elt))])
+        if isinstance(e, ast.DictComp):
+            gens = seq([seq([self.expr(g.iter)] + [self.expr(i) for i in g.ifs]) for g in e.generators])
+            return seq([gens, loop(seq([self.expr(e.key), self.expr(e.value)]))])
+        if isinstance(e, ast.Lambda):
+            return self.expr(e.body)
+        if isinstance(e, ast.IfExp):
+            t = self.truth(e.test)
+            if t is not None:
+                return seq([self.expr(e.test), self.expr(e.body if t else e.orelse)])
+            return seq([self.expr(e.test), branch(self.expr(e.body), self.expr(e.orelse))])
+        if isinstance(e, ast.Call):
+            return self.call(e)
+        return seq([self.expr(c) for c in ast.iter_child_nodes(e) if isinstance(c, ast.expr)])
+
+    def call(self, c):
+        pre = [self.expr(c.func.value)] if isinstance(c.func, ast.Attribute) else []
+        pre += [self.expr(a) for a in c.args] + [self.expr(k.value) for k in c.keywords]
+        d = _dotted(c.func) or ""
+        parts = d.split(".")
+        last = parts[-1]
+        ev = "Skip"
+        if last == "check_random_state":
+            ev = "Skip"                 # the binding (Assign) emits Check; a bare call has no effect
+            if not (c.args and self.is_raw(c.args[0])) and not isinstance(getattr(c, "_parent_assign", None), ast.Assign):
+                pass
+        elif len(parts) >= 2 and last in self.ex.samplers | {"seed", "set_state"} and isinstance(c.func.value, ast.Name) and \
+                (parts[0] in self.rng or parts[0] in self.glob) and len(parts) == 2:
+            if parts[0] in self.rng and parts[0] not in self.glob:
+                ev = "(Draw 0%nat)" if last in self.ex.samplers else "Skip"
+            else:
+                ev = "(DrawNp 0%nat)"
+                self.ex.flags.append((self.where, f"draw {d} on a generator obtained from check_random_state(<not the argument>)"))
+        elif len(parts) == 2 and parts[0] in self.raw and last in self.ex.samplers:
+            ev = seq(["Check", "(Draw 0%nat)"])           # draws on the argument itself
+        elif len(parts) >= 3 and parts[-2] == "random" and parts[0] in ("np", "numpy") and last in self.ex.samplers | {"seed", "set_state"}:
+            ev = "(DrawNp 0%nat)"
+            self.ex.flags.append((self.where, f"module-level draw {d}"))
+        elif "_rand" in parts and last in self.ex.samplers:
+            ev = "(DrawNp 0%nat)"
+            self.ex.flags.append((self.where, f"draw on numpy's global generator object {d}"))
+        else:
+            alts = []
+            for cal in self.ex._callee_names(c, self.aliases):
+                if cal in self.ex.seedclass and (len(parts) == 1 or cal not in self.ex.seedparam):
+                    alts.append(call(self.arg_for(c, cal, self.ex.seedclass[cal], is_class=True), self.ex.body_of(cal)))
+                elif cal in self.ex.seedparam:
+                    alts.append(call(self.arg_for(c, cal, self.ex.seedparam[cal]), self.ex.body_of(cal, self.ex.call_env(cal, c, self))))
+            if alts:
+                ev = alts[0]
+                for a in alts[1:]:
+                    ev = branch(a, ev)
+        return seq(pre + [ev])
+
+    def arg_for(self, c, callee, pname, is_class=False):
+        """the random_state argument of the call c to [callee] (whose seed parameter is pname)"""
+        names = [p for p in SEED_PARAMS] if pname == "**" else [pname]
+        for k in c.keywords:
+            if k.arg in names:
+                return self.argkind(k.value)
+        # **kwargs forwarded: the function's own **kwargs can carry random_state only if the function has no explicit
+        # random_state parameter (svd_interface); **tl.context(tensor) / **context never does
+        for k in c.keywords:
+            if k.arg is None:
+                if isinstance(k.value, ast.Name) and k.value.id == self.kwname and self.param == "**":
+                    return "ARaw"
+                d = (_dotted(k.value.func) if isinstance(k.value, ast.Call) else _dotted(k.value)) or ""
+                if d.split(".")[-1] not in ("context", "kwargs", self.kwname):
+                    self.ex.unresolved.append((self.where, f"**{d or ast.dump(k.value)[:40]} passed to {callee}"))
+        # positional
+        if pname != "**":
+            if is_class:
+                rel, cd = self.ex.classes[callee][0]
+                init = [m for m in cd.body if isinstance(m, ast.FunctionDef) and m.name == "__init__"][0]
+                pos = [a.arg for a in init.args.posonlyargs + init.args.args][1:]
+            else:
+                rel, fd = self.ex.funcs[callee][0]
+                pos = [a.arg for a in fd.args.posonlyargs + fd.args.args]
+                if pos and pos[0] == "self":
+                    pos = pos[1:]
+            if pname in pos and pos.index(pname) < len(c.args) and not any(isinstance(a, ast.Starred) for a in c.args):
+                return self.argkind(c.args[pos.index(pname)])
+        return "ANone"
+
+
+def entry(ex, name):
+    """skeleton of a whole call of the entry point [name] with random_state = the caller's argument"""
+    return call("ARaw", ex.body_of(name))
+
+
+STATIC_EP = {
+    "random_tensor": "E_random_tensor", "randn": "E_random_tensor", "gamma": "E_random_tensor", "random_cp": "E_random_cp",
+    "random_tucker": "E_random_tucker", "random_tt": "E_random_tt", "random_tr": "E_random_tr", "random_tt_matrix": "E_random_tt_matrix",
+    "random_parafac2": "E_random_parafac2", "randomized_range_finder": "E_range_finder", "randomized_svd": "E_randomized_svd",
+    "svd_interface": "E_svd_interface", "initialize_cp": "E_initialize_cp", "parafac": "E_parafac", "non_negative_parafac": "E_nn_parafac",
+    "non_negative_parafac_hals": "E_nn_parafac_hals", "constrained_parafac": "E_constrained_parafac", "randomised_parafac": "E_randomised_parafac",
+    "sample_khatri_rao": "E_sample_khatri_rao", "initialize_tucker": "E_initialize_tucker", "partial_tucker": "E_partial_tucker", "tucker": "E_tucker",
+    "non_negative_tucker": "E_nn_tucker", "non_negative_tucker_hals": "E_nn_tucker_hals", "parafac2": "E_parafac2", "tensor_ring_als": "E_tr_als",
+    "tensor_ring_als_sampled": "E_tr_als_sampled", "tensor_train_cross": "E_tt_cross", "CPRegressor": "E_cp_regressor", "TuckerRegressor": "E_tucker_regressor",
+    "CP_PLSR": "E_cp_plsr", "CP": "(E_estimator E_parafac)", "CP_NN": "(E_estimator E_nn_parafac)", "CP_NN_HALS": "(E_estimator E_nn_parafac_hals)",
+    "ConstrainedCP": "(E_estimator E_constrained_parafac)", "RandomizedCP": "(E_estimator E_randomised_parafac)", "Tucker": "(E_estimator E_tucker)",
+    "Parafac2": "(E_estimator E_parafac2)", "TensorRingALS": "(E_estimator E_tr_als)", "TensorRingALSSampled": "(E_estimator E_tr_als_sampled)",
+}
+# CP_PLSR.fit calls initialize_cp(Z, 1) without random_state; the extraction cannot see that the rank-1 padding branch is
+# unreachable (Model/Draws.v: sk_cp_plsr, theorem C16_cp_plsr_global_free), so global-freeness is not REQUIRED of its
+# option-insensitive extracted skeleton (the traced calls show that nothing is drawn)
+STATIC_NOT_REQUIRED = {"CP_PLSR"}
+HEADER_STATIC = HEADER + "\nDefinition failing := failing_static."
+
+
+def static_cases(cfgs):
+    ex = Extractor(C.REPO, SAMPLERS)
+    models = {}
+    for c in cfgs:
+        models.setdefault(c.ep, set()).add(c.o)
+    names = sorted(set(ex.seedparam) | set(ex.seedclass))
+    cases = []
+    for i, n in enumerate(names):
+        sk = entry(ex, n)
+        ep = STATIC_EP.get(n)
+        ms = "[" + "; ".join(f"skeleton {ep} {o}" for o in sorted(models.get(ep, ()))) + "]"
+        cases.append(f"({i}%nat, {C.boolc(n not in STATIC_NOT_REQUIRED)}, {coq(sk)}, {ms})")
+    return ex, names, cases
 
 
 # ----------------------------------------------------------------------------- running one configuration
@@ -711,17 +1236,60 @@ def run(chk):
         crs_ok = (tl.check_random_state(None) is G and tl.check_random_state(inst) is inst and isinstance(tl.check_random_state(5), ORIG_RS)
                   and tl.check_random_state(5) is not tl.check_random_state(5)
                   and rs_state(tl.check_random_state(5)) == rs_state(ORIG_RS(5)))
-        for bad in ("x", 1.5, [1], (1,)):
+        for bad in ("x", 1.5, [1], (1,), np.random.default_rng(0)):
             r = C.call_impl(tl.check_random_state, bad)
             crs_ok = crs_ok and r[0] == "reject"
         chk.count(key=("check_random_state",), nontrivial=True)
+        # integer seeds NumPy does not accept (negative, >= 2**32): whatever the entry point does with them it does it
+        # twice in the same way, and the global generator is not touched
+        picked = [c for c in cfgs if c.seedable and "int" in c.kinds and not c.rng_free]
+        for c in [picked[i] for i in sorted(rng.sample(range(len(picked)), min(len(picked), 8 if tier == "quick" else 40)))]:
+            for bad_seed in (-1, 2 ** 32, 2 ** 64 + 5):
+                perturb(rng)
+                s0 = gstate()
+                a = C.call_impl(c.fn, bad_seed, timeout=60)
+                s1 = gstate()
+                perturb(rng)
+                b = C.call_impl(c.fn, bad_seed, timeout=60)
+                chk.count(key=("out-of-range seed", c.entry_point), nontrivial=True)
+                chk.cov["evaluations"] += 1
+                chk.hist("out-of-range int seed", a[0])
+                if not same(a, b):
+                    chk.finding(c.entry_point, {"config": c.name, "random_state": "int", "seed": bad_seed},
+                                "two calls with the same (out-of-range) integer seed behave differently", "C16_seeded_reproducible")
+                if s0 != s1:
+                    chk.finding(c.entry_point, {"config": c.name, "random_state": "int", "seed": bad_seed},
+                                "np.random.get_state() changed by a call with an (out-of-range) integer seed", "C16_global_untouched")
         if not crs_ok:
             chk.finding("tensorly.check_random_state", {"config": "check_random_state", "random_state": "all kinds", "seed": 5},
                         "check_random_state does not map None/int/RandomState/other to global/fresh seeded/itself/ValueError", "C16_check_random_state")
     finally:
         uninstall()
     failing, n_eval, broken = run_shards_retry(cases, chk)
-    chk.checker_cmds.append("coqc (vm_compute) on generated build/cases/C16/*.v: Corr.C16.failing")
+    # static correspondence: skeletons extracted from the source of VERIF_REPO, judged by the model's static analysis
+    try:
+        ex, snames, scases = static_cases(cfgs)
+    except Exception as e:  # noqa  (a source file the extraction cannot digest is reported, never silently skipped)
+        ex, snames, scases = None, [], []
+        chk.broken.append({"what": "corr:C16-static extraction failed", "detail": f"{type(e).__name__}: {e}"[:500]})
+    if scases:
+        sfail, sn, sbroken = C.run_case_shards("C16", HEADER_STATIC, "scase", scases, shard=60, tag="static")
+        if sbroken and all(b.get("rc") in (-9, 137, 124, -15) and not (b.get("stderr") or "").strip() for b in sbroken):
+            sfail, sn, sbroken = C.run_case_shards("C16", HEADER_STATIC, "scase", scases, shard=60, tag="static_retry")
+        chk.cov["static_skeletons_extracted_and_analysed"] = sn
+        chk.cov["static_unresolved_constructs"] = len(ex.unresolved)
+        chk.count(key=("static",), nontrivial=True, n=sn)
+        for n in snames:
+            chk.hist("static: extracted skeleton", n)
+        for b in sbroken:
+            chk.broken.append({"what": "correspondence corr:C16-static shard not evaluated", "detail": b})
+        for i in sorted(sfail):
+            chk.disagreement("corr:C16-static (skeleton extracted from the source is not accepted by the model's join-precise static analysis global_free_w, "
+                             "or is draw-free where the model draws)",
+                             {"function_or_class": snames[i], "identified_global_sources": [f"{w}: {m}" for (w, m) in ex.flags][:12],
+                              "extracted_skeleton": scases[i][:1500]})
+        chk.sample({"static": snames[len(snames) // 2], "extracted": scases[len(snames) // 2][:300]})
+    chk.checker_cmds.append("coqc (vm_compute) on generated build/cases/C16/*.v: Corr.C16.failing, Corr.C16.failing_static")
     chk.cov["traces_validated_against_impl"] = n_eval
     chk.cov["exhaustive"] = False
     chk.cov["skipped_configurations"] = nskip
@@ -745,7 +1313,9 @@ def run(chk):
                        "(violations would show as non-identical repeated calls in the predicates)",
                        "a generator is considered drawn from when one of its sampling methods is looked up"]
     chk.trusted += ["draw skeletons of Model/Draws.v are hand-written abstractions of the call structure; tied to the code only through the source projection of draw traces",
-                    "LogRS interposition (harness): replaces np.random.mtrand._rand / module-level numpy.random functions / np.random.RandomState for the duration of the run"]
+                    "LogRS interposition (harness): replaces np.random.mtrand._rand / module-level numpy.random functions / np.random.RandomState for the duration of the run",
+                    "ast extraction of draw skeletons (harness, corr:C16-static): intraprocedural walk + inlining by bare callee name + constant propagation of keyword arguments; "
+                    "constructs it does not understand are counted (static_unresolved_constructs), never an alarm; method calls on objects are covered only through constructor inlining"]
     return chk.finish({})
 
 
@@ -773,6 +1343,18 @@ def replay(payload):
             if not found:
                 print("replay: configuration not found:", inp["config"]); return 1
             seed = inp.get("seed")
+            if seed is not None and not (0 <= int(seed) < 2 ** 32):
+                # out-of-range integer seed: the two-call comparison of run()
+                cfg = found[0]
+                perturb(rng)
+                s0 = gstate()
+                a = C.call_impl(cfg.fn, int(seed), timeout=60)
+                s1 = gstate()
+                perturb(rng)
+                b = C.call_impl(cfg.fn, int(seed), timeout=60)
+                bad = (not same(a, b)) or s0 != s1
+                print("replay:", cfg.name, "seed", seed, "->", "fails" if bad else "holds")
+                return 1 if bad else 0
             seeds = [int(seed) if seed is not None else 0, 1, 2]
             for _ in range(3):
                 check_config(found[0], seeds, rng, chk, [], [], n_perturb=2)
